@@ -26,6 +26,8 @@ const (
 	tagRelease           rpmTag = 1002
 	tagEpoch             rpmTag = 1003
 	tagSummary           rpmTag = 1004
+	tagDescription       rpmTag = 1005
+	tagOldFilenames      rpmTag = 1027
 	tagSize              rpmTag = 1009
 	tagLicense           rpmTag = 1014
 	tagArch              rpmTag = 1022
